@@ -215,6 +215,7 @@ package xmpp
 //@   emits Send, SendAttrs, SendRaw, Write
 //
 //@ func (*xmpp.Router).route(r, s, p)
+//@   emit Routed(s, p)
 //@   requires wfRouter(r) && s != nil && p != nil
 //@   requires typeof(p) == *stanza.IQ ==> p.(*stanza.IQ) != nil
 //@   requires pendingWf(r)
@@ -504,3 +505,45 @@ package xmpp
 //@   assigns s.err, s.SMState, o.StreamManagementEnable
 //@   emits Write, PacketRead, StanzaRead, AckReqRead, StreamErrRead, TokenRead, Marshaled
 //@   at call Write assert [C11.enable.wire] bytes($p) == xmlOf(last(Marshaled)) && typeof(last(Marshaled)) == stanza.SMEnable
+
+// ---------------------------------------------------------------------------
+// C05 / C08: transports are io.Reader / io.Writer; the component's receive loop
+//
+//@ func (*xmpp.XMPPTransport).Read(t, p) (n, err)
+//@   requires t != nil
+//@   ensures [C05.reader.tcp] 0 <= n && n <= len(p)
+//@   elems p
+//@ func (*xmpp.XMPPTransport).Write(t, p) (n, err)
+//@   requires t != nil
+//@   ensures [C08.writer.tcp.once] count(Write) <= old(count(Write)) + 1 && (t.readWriter != nil ==> count(Write) == old(count(Write)) + 1 && last(Write, 0) == t.readWriter && last(Write, 1) == bytes(p))
+//@   ensures [C08.writer.tcp.err]  (t.readWriter == nil || !last(Write, 2)) ==> err != nil
+//@   ensures [C08.writer.tcp.n]    err == nil ==> n == len(p)
+//@   emits Write
+//
+//@ func (*xmpp.WebsocketTransport).Read(t, p) (n, err)
+//@   requires t != nil && t.closeCtx != nil
+//@   ensures [C05.reader.ws] 0 <= n && n <= len(p)
+//@   elems p
+//@   assigns t.pending
+//@   emits ChanRecv, Select
+//@ func (xmpp.WebsocketTransport).Write(t, p) (n, err)
+//@   requires t.wsConn != nil
+//@   ensures [C08.writer.ws.once] count(WsWrite) == old(count(WsWrite)) + 1 && last(WsWrite, 0) == t.wsConn && last(WsWrite, 1) == bytes(p)
+//@   ensures [C08.writer.ws.err]  !last(WsWrite, 2) ==> err != nil
+//@   ensures [C08.writer.ws.n]    n == len(p)
+//@   emits WsWrite
+//
+//@ event Routed(s Iface, p Iface)
+//@ pred compOK(c) := c != nil && c.transport != nil && c.router != nil && wfRouter(c.router) && pendingWf(c.router) && c.ErrorHandler != nil
+//@ func (*xmpp.Component).recv(c)
+//@   requires compOK(c)
+//@   ensures [C05.comp.once]  count(Routed) - old(count(Routed)) == newReads() + (count(StreamErrRead) - old(count(StreamErrRead))) || (count(Routed) - old(count(Routed)) + 1 == newReads() + (count(StreamErrRead) - old(count(StreamErrRead))) && typeof(last(PacketRead)) == stanza.StreamClosePacket)
+//@   ensures [C05.comp.error] !(newReads() > 0 && typeof(last(PacketRead)) == stanza.StreamClosePacket && count(Routed) - old(count(Routed)) + 1 == newReads() + (count(StreamErrRead) - old(count(StreamErrRead)))) ==> count(ErrorHandler) - old(count(ErrorHandler)) == count(StreamErrRead) - old(count(StreamErrRead)) + 1 && c.CurrentState.state == StateDisconnected
+//@   assigns c.CurrentState.state
+//@   elems c.router.IQResultRoutes
+//@   emits PacketRead, StanzaRead, AckReqRead, StreamErrRead, TokenRead, Routed, HandlePacket, Send, SendAttrs, SendRaw, Write, ChanSend, Close, ErrorHandler, EventHandler
+//@   loop 1:
+//@     invariant compOK(c) && c.router == old(c.router) && c.router.IQResultRoutes == old(c.router.IQResultRoutes) && c.Handler == old(c.Handler)
+//@     invariant [C05.comp.once]  count(Routed) - old(count(Routed)) == newReads() + (count(StreamErrRead) - old(count(StreamErrRead))) && newReads() >= 0
+//@     invariant [C05.comp.order] newReads() > 0 ==> (count(Routed) > 0 && last(Routed, 1) == last(PacketRead) && last(Routed, 0) == iface(c))
+//@     invariant [C05.comp.error] count(ErrorHandler) - old(count(ErrorHandler)) == count(StreamErrRead) - old(count(StreamErrRead))
